@@ -213,7 +213,9 @@ inductive AOpt
   | jump (t : Str)
   | goto (t : Str)
   | logLevel (lvl : Str) (hDebug : Bool)
-  | setMark (hex : Str) (hXmark : Bool) (hVal : Str)
+  /-- `MARK`: value and mask as the kernel holds them (lower case hex digits); the user's text `hVal`
+  behind `--set-mark` (`hXmark = false`) or `--set-xmark` -/
+  | setMark (hex mask : Str) (hXmark : Bool) (hVal : Str)
   | toSource (ip : Str)
   deriving DecidableEq, Repr
 
@@ -277,7 +279,7 @@ def AOpt.user : AOpt → OptW
   | .jump t => ⟨.no, s "-j", [t]⟩
   | .goto t => ⟨.no, s "-g", [t]⟩
   | .logLevel lvl d => ⟨.no, s "--log-level", [if d ∧ lvl = s "7" then s "debug" else lvl]⟩
-  | .setMark _ x v => ⟨.no, if x then s "--set-xmark" else s "--set-mark", [v]⟩
+  | .setMark _ _ x v => ⟨.no, if x then s "--set-xmark" else s "--set-mark", [v]⟩
   | .toSource ip => ⟨.no, s "--to-source", [ip]⟩
 
 /-- Parameters of the device's iptables: does it print names for protocols 112 and 58
@@ -301,7 +303,7 @@ def AOpt.kernel (cfg : KCfg) : AOpt → OptW
   | .jump t => ⟨.no, s "-j", [t]⟩
   | .goto t => ⟨.no, s "-g", [t]⟩
   | .logLevel lvl _ => ⟨.no, s "--log-level", [lvl]⟩
-  | .setMark hex _ _ => ⟨.no, s "--set-xmark", [s "0x" ++ hex ++ s "/0xffffffff"]⟩
+  | .setMark hex mask _ _ => ⟨.no, s "--set-xmark", [s "0x" ++ hex ++ s "/0x" ++ mask]⟩
   | .toSource ip => ⟨.no, s "--to-source", [ip]⟩
 
 /-- Position of an option in the kernel's printing order. -/
@@ -402,10 +404,13 @@ def AOpt.wf : AOpt → Bool
   | .state l => !l.isEmpty && decide l.Nodup
   | .jump t | .goto t => plainTok t
   | .logLevel lvl _ => canonNum lvl
-  | .setMark hex x v =>
+  | .setMark hex mask x v =>
+    -- only the default mask is inside the grammar: with another mask the kernel prints
+    -- `--set-xmark v/m`, which the code neither renames nor rewrites (F-C05k)
     plainTok v && hex.all (fun c => isDigit c || ('a' ≤ c && c ≤ 'f')) &&
     (markNorm v).isSome && markNorm v == markNorm (s "0x" ++ hex ++ s "/0xffffffff") &&
-    (!x || (let (_, m, f) := cutChar v '/'; !f || lower m == s "0xffffffff"))
+    (!x || (let (_, m, f) := cutChar v '/'; !f || lower m == s "0xffffffff")) &&
+    mask == s "ffffffff"
   | .toSource ip => ipTok ip
 
 def nodupKeys (l : List OptW) : Bool := decide (l.map (·.key)).Nodup
